@@ -41,6 +41,25 @@ pub fn dispatch(ctx: &mut Ctx, op: &str, call: &Value) -> Option<Value> {
                 _ => out::unsupported(),
             },
         },
+        // the image's first 16 bytes viewed as a bare Multiboot2BasicHeader (no load, no length requirement)
+        "basic" => {
+            if ctx.len < 16 || ctx.base as usize % 8 != 0 {
+                return Some(out::unsupported());
+            }
+            let b: &Multiboot2BasicHeader = unsafe { &*ctx.base.cast::<Multiboot2BasicHeader>() };
+            match out::arg_str(call, "f") {
+                "header_magic" => out::val(b.header_magic() as u64, 4),
+                "arch" => out::val(b.arch() as u32 as u64, 4),
+                "length" => out::val(b.length() as u64, 4),
+                "checksum" => out::val(b.checksum() as u64, 4),
+                "verify_checksum" => out::boolean(b.verify_checksum()),
+                "dbg" => {
+                    std::hint::black_box(format!("{b:?}"));
+                    out::unit()
+                }
+                _ => out::unsupported(),
+            }
+        }
         "hdbg" => match ctx.hdr_ref() {
             None => out::skipped(),
             Some(h) => hdbg(ctx, h, out::arg_str(call, "what")),
